@@ -263,10 +263,12 @@ static inline byte_array bytes_from_hex(const char *str, size_t len)
 {
     byte_array vec(len / 2);
     int result = ::ascon_bytes_from_hex(vec.data(), vec.size(), str, len);
-    if (result != -1)
+    if (result != -1) {
+        vec.resize(result);
         return vec;
-    else
+    } else {
         return byte_array();
+    }
 }
 
 /**
@@ -384,10 +386,12 @@ static inline byte_array bytes_from_hex(const char *str, size_t len)
 {
     byte_array vec(len / 2);
     int result = ::ascon_bytes_from_hex(vec.data(), vec.size(), str, len);
-    if (result != -1)
+    if (result != -1) {
+        vec.resize(result);
         return vec;
-    else
+    } else {
         return byte_array();
+    }
 }
 
 static inline byte_array bytes_from_hex(const char *str)
